@@ -712,6 +712,7 @@ func MergeStreamReaders[T any](srs []*StreamReader[T]) *StreamReader[T] {
 	if len(srs) < 2 {
 		return srs[0]
 	}
+	verifC19Merge(len(srs))
 
 	var arr []T
 	var ss []*stream[T]
